@@ -38,18 +38,18 @@ def validate(ctx, pid, traces, what):
         ev = tr["events"][l - 1]
         return "trace:%s:%s" % (clause, ev["r"]["ep"] if "r" in ev else ev["ev"])
 
-    saved = ctx.findings
-    ctx.findings = []
-    ctx.trace("storage/TraceStorageHTTP", traces, key_of=key_of, batch=400, workers=4,
-              what_of=lambda tr, l, c: "%s: event %d (%s) is not a step of StorageHTTP.tla: clause %s" % (
-                  what, l, json.dumps({k: v for k, v in tr["events"][l - 1].items() if k not in ("obs", "d", "obsall", "dobsall")})[:600], c))
-    mine = ctx.findings
-    ctx.findings = saved
-    for f in mine:
-        clause = f["key"].split(":")[1]
-        if belongs(clause, pid):
-            ctx.findings.append(f)
+    captured = []
+    ctx.report = lambda key, what, replay=None: captured.append((key, what, replay))
+    try:
+        ctx.trace("storage/TraceStorageHTTP", traces, key_of=key_of, batch=400, workers=4,
+                  what_of=lambda tr, l, c: "%s: event %d (%s) is not a step of StorageHTTP.tla: clause %s" % (
+                      what, l, json.dumps({k: v for k, v in tr["events"][l - 1].items() if k not in ("obs", "d", "obsall", "dobsall")})[:600], c))
+    finally:
+        del ctx.report          # back to the class's method
+    for key, wh, replay in captured:
+        if belongs(key.split(":")[1], pid):
+            ctx.report(key, wh, replay)
         else:
-            other.append(f["key"])
+            other.append(key)
     if other:
         ctx.notes.append("traces cut short by clauses of the sibling property (reported by its own check): %s" % sorted(set(other)))
